@@ -62,6 +62,10 @@ func main() {
 	known := harness.LoadKnown("/verif/known_findings.json")
 	knownHits := map[string]int{}
 	deadline := time.Now().Add(*budget)
+	if *count == 0 && *replay == "" {
+		// enumerations inside a case stop shortly after the budget, too
+		harness.Deadline = deadline.Add(3 * time.Second)
+	}
 	viol := 0
 	n := 0
 	for i := *start; ; i += *stride {
